@@ -294,6 +294,27 @@ CHECKS.update({
         engine="regex"),
 })
 
+CHECKS.update({
+    "C09": dict(
+        category="model_checking",
+        text="FixApply.tla models a statement list with the target statements of a multi-statement rule and unrelated statements "
+             "before, between and after them, the fix range (the matched run) and the edit; OutsideUnchanged, NoUnrelatedDeleted and "
+             "OneStatementReplacesRun hold when a fix is offered for adjacent targets only (the repaired rules); the pinned rules "
+             "(what-if) refute NoUnrelatedDeleted. ZeroValue.tla enumerates type terms and transcribes ZeroValueOf; KeepsType and "
+             "ConvUnambiguous hold and are refuted by three what-ifs (complex128 / named types as default literal types; no "
+             "parentheses around a type that ends in a func type - the pinned printer defect). All 84 block shapes are rendered for "
+             "the strings.Cut and valSwap rules and all 58 type terms as *new(T); the model's predictions (reported, fix offered, "
+             "statements lost, synthesised zero value) are compared with the real suggestions. Every real suggestion on these "
+             "programs, the repository's example packages, the executable rule templates and the adversarial corpus (570 fixes and "
+             "quoted replacements) is applied for real and judged by go/parser and go/types: category, type-check with import "
+             "bookkeeping, type kept, nothing lost, diagnostic gone after a fresh analysis; comment fixes are compared byte by byte "
+             "with the specified edit, also through the analysis driver after the whole package was analysed.",
+        design_ref="DESIGN.md section 6 C09",
+        note="The corpus-wide judgement uses the toolchain as oracle; six known findings (five asserted by the repository's tests).",
+        technique="TLC enumeration of edit shapes and type terms replayed on the real checkers + apply-and-recheck with go/parser, go/types",
+        engine="fixapply"),
+})
+
 NOT_YET = "check not built yet (construction in progress; see DESIGN.md section 6)"
 NOT_APPLICABLE = {}
 
